@@ -25,7 +25,7 @@ TInit == Init /\ l = 1 /\ ops = <<>> /\ bad = "" /\ TLCSet(42, {})
 
 TBegin ==
   /\ Consume /\ Ev.e = "begin"
-  /\ up' = TRUE /\ ps' = [p \in Promises |-> "none"] /\ routed' = {} /\ subs' = {} /\ notified' = {}
+  /\ up' = ~ Ev.cold /\ ps' = [p \in Promises |-> "none"] /\ routed' = {} /\ subs' = {} /\ notified' = {}
   /\ ts' = [p \in Promises |-> "none"] /\ sched' = "none" /\ fired' = FALSE /\ lock' = FALSE
   /\ short' = "none" /\ aged' = FALSE /\ n' = 0 /\ hist' = <<>>
   /\ ops' = Ev.ops /\ bad' = ""
@@ -48,7 +48,9 @@ Request ==
                [] O.op = "createshort" -> CreateShort
           /\ bad' = ""
      ELSE /\ Same
-          /\ bad' = IF ~ Ev.alive THEN "the server died" ELSE "unplayable: a request of the scenario was not accepted"
+          /\ bad' = IF ~ Ev.alive THEN "the server died"
+                    ELSE IF Ev.class \in {"5xx", "none"} THEN "the server is not usable on its database"
+                    ELSE "unplayable: a request of the scenario was not accepted"
 
 Process ==
   /\ IsStep("main") /\ Ev.do \in {"kill", "term", "start", "startkill", "sleep"}
@@ -135,7 +137,7 @@ C06_AckedSurvives == bad \notin {"an acknowledged write is not in the database a
 C06_AllOrNothing == bad \notin {"a stored entity is not whole (half of a request took effect)", "a request in flight at the crash took effect in part",
                                 "the database file is corrupted"}
 \* the server restarts on its database, also after crashes during recovery, and stops on SIGTERM
-C06_Restarts == bad \notin {"the server did not come back on its database", "the server did not stop on SIGTERM", "the server died", "the server panicked"}
+C06_Restarts == bad \notin {"the server did not come back on its database", "the server is not usable on its database", "the server did not stop on SIGTERM", "the server died", "the server panicked"}
 \* background processing resumes from the stored state
 C06_Resumes == bad # "background processing did not resume"
 \* (machinery) the scenario could be played
